@@ -177,7 +177,7 @@ pub fn corr_run(profile: &Profile, seed: u64, first: u64, cases: u64, max_failur
         let mut r = Sm::new(seed.wrapping_mul(0x1000193).wrapping_add(ci));
         let mut setup = gen_setup(&mut r, profile);
         // one case in 150 is a marathon of probe rounds (wrap-around of the u8 probe number and timer token)
-        let marathon = ci % 150 == 7;
+        let marathon = ci % 150 == 7 && ci % 300 != 157;
         let mut marathon_profile = profile.clone();
         if marathon {
             marathon_profile.w = [3, 6, 88, 0, 0, 0, 0, 1, 0, 1, 1];
@@ -186,8 +186,11 @@ pub fn corr_run(profile: &Profile, seed: u64, first: u64, cases: u64, max_failur
                 setup.cfg.mps = 300;
             }
         }
+        // one case in 300 is a marathon of connection epochs (wrap-around of the u8 timer token through every
+        // path that bumps it: going idle, changing identity, leaving)
+        let epochs = ci % 300 == 157;
         let profile = if marathon { &marathon_profile } else { profile };
-        let nops = if marathon { 1400 } else { r.range(profile.ops_per_case.0, profile.ops_per_case.1) };
+        let nops = if marathon { 1400 } else if epochs { 760 } else { r.range(profile.ops_per_case.0, profile.ops_per_case.1) };
         let mut pair = match Pair::new(&mut drv, 0, &setup) {
             Ok(p) => p,
             Err(m) => {
@@ -221,6 +224,25 @@ pub fn corr_run(profile: &Profile, seed: u64, first: u64, cases: u64, max_failur
                     if let Some(t) = ctx.timers.iter().rev().find(|t| matches!(t, foca::Timer::SendIndirectProbe { token, .. } if *token == tok)) {
                         op = Op::Timer(t.clone());
                     }
+                }
+            }
+            if epochs {
+                let own = pair.inst.identity();
+                let a = 100 + ((i / 2) % 3000) as u16;
+                let a = if a == own.addr { a + 3001 } else { a };
+                let pick = r.below(100);
+                if i % 2 == 0 {
+                    op = Op::Apply(false, vec![foca::Member::new(crate::ident::VId::new(a, 0), 0, foca::State::Alive)]);
+                } else if pick < 72 {
+                    // everybody that is active goes down: the instance becomes idle and the epoch ends
+                    let downs: Vec<_> = pair.inst.active_members().iter().map(|m| foca::Member::new(*m.id(), m.incarnation(), foca::State::Down)).collect();
+                    op = Op::Apply(false, downs);
+                } else if pick < 84 {
+                    op = Op::ChId(crate::ident::VId::new(own.addr, own.gen.wrapping_add(1)), setup.policy);
+                } else if pick < 90 {
+                    // a timer of the epoch that just ended, and one of the current epoch
+                    let tok = pair.inst.foca.verif_snapshot().timer_token;
+                    op = Op::Timer(foca::Timer::ProbeRandomMember(if pick % 2 == 0 { tok } else { tok.wrapping_sub(1) }));
                 }
             }
             ops.push(op.clone());
